@@ -15,7 +15,7 @@ CONSTANTS
   TreeIds = {1, 4}
   SparseIds = {}
   XP = "respect"
-  Strict = TRUE
+  Strict = "all"
   Emit = FALSE
 INVARIANTS Inv_C23
 VIEW View
